@@ -94,6 +94,9 @@ func c14Menu(c lockCfg, thorough bool) func(w *engb.World, st *engb.LState, dept
 		{Dt: 1, Ops: []engb.LOp{{Kind: "threshold", Token: 1, Amt: amt(1)}, {Kind: "threshold", Token: 0, Amt: amt(2)}}},
 		{Dt: 1, Absent: []int{0}, Ops: []engb.LOp{{Kind: "lock", Val: 0, Token: 0, Amt: amt(1)}}},
 		{Dt: 1, Absent: []int{0}, Evidence: []engb.EvSpec{{Val: 0, AgeBlocks: 1, AgeSecs: 1}}},
+		// a stronger candidate takes the weaker member's seat: for two more blocks the consensus
+		// engine's commits still list the outranked (now pending, not active) validator
+		{Dt: 1, Ops: []engb.LOp{{Kind: "create", Val: len(c.Powers)}, {Kind: "lock", Val: len(c.Powers), Token: 0, Amt: amt(3)}}},
 		// several pieces of evidence in one block: an expired one must not shadow a fresh one
 		{Dt: 1, Evidence: []engb.EvSpec{{Val: 0, AgeBlocks: 5, AgeSecs: 30}, {Val: 1, AgeBlocks: 1, AgeSecs: 1}}},
 		{Dt: 1, Evidence: []engb.EvSpec{{Val: 1, AgeBlocks: 1, AgeSecs: 1}, {Val: 0, AgeBlocks: 5, AgeSecs: 30}}},
